@@ -236,6 +236,7 @@ def install_builtins(I):
 
     @nf("hasattr")
     def _hasattr(interp, o, name):
+        interp._attr_probe = getattr(interp, "_attr_probe", 0) + 1  # a probe: a missing attribute is an answer, not a stub gap
         try:
             interp.getattr(o, name)
             return True
@@ -243,17 +244,22 @@ def install_builtins(I):
             if e.exc.cls.issubclass(interp.exc_classes["AttributeError"]):
                 return False
             raise
+        finally:
+            interp._attr_probe -= 1
 
     @nf("getattr")
     def _getattr(interp, o, name, default=_MISSING):
         if default is _MISSING:
             return interp.getattr(o, name)
+        interp._attr_probe = getattr(interp, "_attr_probe", 0) + 1
         try:
             return interp.getattr(o, name)
         except PyRaise as e:
             if e.exc.cls.issubclass(interp.exc_classes["AttributeError"]):
                 return default
             raise
+        finally:
+            interp._attr_probe -= 1
 
     @nf("setattr")
     def _setattr(interp, o, name, v):
